@@ -220,7 +220,8 @@ Lemma getMP_MP_one n rest :
   mp_fits n -> exists b, MP n = Ok b /\ getMP (b ++ rest) 1 = Ok ([n], rest).
 Proof.
   intros F. destruct (getMP_MP_all [n] rest (Forall_cons _ F (Forall_nil _))) as [b [E G]].
-  cbn [MP_all] in E. rewrite (MP_ok n F) in E. cbn [bind] in E. inversion E; subst b.
+  cbn [MP_all] in E. rewrite (MP_ok n F) in E. cbn [bind] in E.
+  assert (Hb : b = frame (mp_payload n) ++ []) by congruence. subst b.
   exists (frame (mp_payload n)). split; [now apply MP_ok|].
   rewrite app_nil_r in G. exact G.
 Qed.
@@ -252,7 +253,8 @@ Lemma getMP_frames_n ns rest :
   getMP (concat (map frame (map mp_payload ns)) ++ rest) (length ns) = Ok (ns, rest).
 Proof.
   intros F. destruct (getMP_MP_all ns rest F) as [b [E G]].
-  rewrite MP_all_ok in E by exact F. inversion E; subst b. exact G.
+  rewrite MP_all_ok in E by exact F.
+  assert (Hb : b = concat (map frame (map mp_payload ns))) by congruence. subst b. exact G.
 Qed.
 
 Lemma name_fits_small l : (length l <= 1000)%nat -> ns_fits l.
